@@ -73,6 +73,12 @@ def run(ctx):
     for kind, arr in batches:
         N, C, T = arr.shape
         chars = [chr(97 + i) for i in range(C - 1)]
+        if rng.random() < 0.25:
+            # a character table with entries outside Unicode NFC (letter + combining mark, Greek question mark, Angstrom sign, Ohm sign)
+            odd = ['e\u0301', '\u037e', '\u212b', '\u2126', 'c\u030c']
+            chars = [odd[i % len(odd)] if rng.random() < 0.6 else ch for i, ch in enumerate(chars)]
+            if len(set(chars)) != len(chars):
+                chars = [chr(97 + i) for i in range(len(chars))]
         try:
             eng = greedy_decode_ctc(torch.from_numpy(arr.copy()).float(), chars + ['​'])
         except Exception as e:
